@@ -286,6 +286,7 @@ var quotedKeyEscaper = strings.NewReplacer(`\`, `\\`, `"`, `\"`)
 // notation unless they are empty or contain non-identifier characters, in which
 // case bracket notation with quotes is used; a quote or backslash inside a quoted
 // key is backslash-escaped, so two different paths never render alike.
+// A segment of any other type is written as the string key its %v text is.
 // Compatible with TypeScript Zod v4 path formatting.
 func ToDotPath(path []any) string {
 	if len(path) == 0 {
@@ -296,6 +297,15 @@ func ToDotPath(path []any) string {
 	b.Grow(len(path) * 8)
 
 	for i, seg := range path {
+		switch seg.(type) {
+		case int, string:
+		default:
+			// A Map key or Set element of another type: written as the string key
+			// its text is, the key the error reports file it under. Written raw,
+			// int64(0) would read like the index 0.
+			seg = fmt.Sprintf("%v", seg)
+		}
+
 		switch v := seg.(type) {
 		case int:
 			b.WriteByte('[')
@@ -313,8 +323,6 @@ func ToDotPath(path []any) string {
 				b.WriteByte('.')
 				b.WriteString(v)
 			}
-		default:
-			fmt.Fprintf(&b, "[%v]", v)
 		}
 	}
 
